@@ -23,6 +23,7 @@ type Summary struct {
 //	<exe> corpus  <out.json> <tier> <repo> <opa testdata dir> <corpus dir> <tmp dir>
 //	<exe> replay  <out.json> <replay.json> <tmp dir>
 //	<exe> helpers <out.jsonl> <tier>                      (OPA evaluation of the framework helpers)
+//	<exe> propagation <out.jsonl> <tier>                  (error propagation of Lint over subsets of a small pool)
 //	<exe> worker  <job.json> <out.jsonl>                  (internal)
 func Main(prop string) {
 	if len(os.Args) < 2 {
@@ -35,6 +36,8 @@ func Main(prop string) {
 		RunWorker(os.Args[2], os.Args[3])
 	case "helpers":
 		RunHelpers(prop, os.Args[2], os.Args[3])
+	case "propagation":
+		RunPropagation(os.Args[2], os.Args[3])
 	case "corpus":
 		out, tier, repo, opa, cdir, tmp := os.Args[2], os.Args[3], os.Args[4], os.Args[5], os.Args[6], os.Args[7]
 		r := hutil.NewRng(hutil.SeedFromEnv())
@@ -44,7 +47,7 @@ func Main(prop string) {
 		case tier == "quick" && !locate:
 			plan.OPASample, plan.GenN, plan.MutN, plan.SingleFile = 1000, 400, 400, 24
 		case tier == "quick" && locate:
-			plan.OPASample, plan.GenN, plan.MutN, plan.SingleFile = 350, 150, 150, 8
+			plan.OPASample, plan.GenN, plan.MutN, plan.SingleFile, plan.BundleSample = 260, 110, 110, 6, 90
 		case !locate:
 			plan.OPASample, plan.GenN, plan.MutN, plan.SingleFile, plan.Stress = 0, 4000, 4000, 200, 4
 		default:
